@@ -4,9 +4,9 @@
 EXTENDS MockeryMC
 
 Thorough == Quick
-            \cup Levels({{}, Lv4, {"root"}, {"a.A1"}})
+            \cup Levels({{}, Lv4, {"root"}, {"a.A1"}, {"a"}, {"a.A1.1"}, {"root", "a.A1.1"}, {"a", "a.A1"}})
             \cup CrossRef({{"a"}, {"root", "a.A1"}})
-            \cup SelectW({"S1", "S2"}, {{}, {"A2"}, {"A1", "A2", "B1"}}, PerE)
+            \cup SelectW({"S1", "S2", "S3"}, {{}, {"A2"}, {"A1", "A2", "B1"}}, PerE)
             \cup Recur(BOOLEAN, PerE)
             \cup FsWorlds(Bg5, SUBSET FilesOf(Bg5)) \cup FsWorlds(Bg3, SUBSET FilesOf(Bg3))
             \cup Fault(Bg5) \cup Sources(Bg5) \cup Commands(Bg5) \cup BuildTags(Bg5)
